@@ -125,5 +125,16 @@ func acceptsGzip(r *http.Request) bool {
 			return false
 		}
 	}
-	return strings.Contains(r.Header.Get(headerAcceptEncoding), encodingGzip)
+	// gzip must be listed and must not be refused with a zero weight ("gzip;q=0")
+	for _, coding := range strings.Split(r.Header.Get(headerAcceptEncoding), ",") {
+		name, params, _ := strings.Cut(coding, ";")
+		if !strings.Contains(name, encodingGzip) {
+			continue
+		}
+		if q, ok := strings.CutPrefix(strings.TrimSpace(params), "q="); ok && strings.Trim(q, "0.") == "" && q != "" {
+			continue
+		}
+		return true
+	}
+	return false
 }
